@@ -590,8 +590,13 @@ orc_program_add_constant_str (OrcProgram *program, int size,
   }
 
   for(j=0;j<program->n_const_vars;j++){
+    /* literals written in the code (the parser names them "_<size>.<text>")
+     * share a slot with an equal constant; a constant declared under a name of
+     * its own keeps that name, or the instructions using it cannot find it */
     if (program->vars[ORC_VAR_C1 + j].value.i == program->vars[i].value.i &&
-        program->vars[ORC_VAR_C1 + j].size == size) {
+        program->vars[ORC_VAR_C1 + j].size == size &&
+        (name[0] == '_' ||
+         strcmp (program->vars[ORC_VAR_C1 + j].name, name) == 0)) {
       return ORC_VAR_C1 + j;
     }
   }
